@@ -96,3 +96,13 @@ func readerSaysSymbol(s string, st reading) bool {
 // colon runs, leading and trailing colons, dashes and pluses around digits,
 // qualified names with dashes on either side).
 var symAlphabetSign = []string{"a", "1", "-", "+", ":"}
+
+// symAlphabetEdges: letters at the edges of the UTF-8 widths next to runes
+// that are NOT letters (the replacement character, the byte-order mark, a
+// private-use rune), with the sign and the package separator.
+var symAlphabetEdges = []string{"a", "-", ":", "\u00e9", "\u0800", "\U00010000", "\ufffd", "\ufeff", "\ue000"}
+
+// rawAlphabet: what string and raw-string literals are filled with as raw
+// bytes: every edge rune first (so that an index below len(edgeRunes) names
+// one), then a letter, two more non-ASCII runes and the comment character.
+var rawAlphabet = append(append([]rune{}, edgeRunes...), 'a', 0xE9, 0x1F600, ';')
